@@ -11,6 +11,6 @@ def expected_worldProofCalls : List (List String) := [["into_client_header_crypt
 /-- client: (username, key, server_seed, own seed); server: (username, key, own seed, client_seed) — identically in all three modules -/
 theorem C06_source_seed_argument_order :
     Gen.worldProofCallsVanilla = expected_worldProofCalls ∧ Gen.worldProofCallsTbc = expected_worldProofCalls ∧
-    Gen.worldProofCallsWrath = expected_worldProofCalls := by decide
+    Gen.worldProofCallsWrath = expected_worldProofCalls := by decide +kernel
 
 end WowSrp
